@@ -4,6 +4,15 @@ See DESIGN.md sections 2.3, 2.4, 6, 7."""
 import fcntl, hashlib, json, os, random, re, subprocess, sys, time, shutil
 from concurrent.futures import ThreadPoolExecutor
 
+# the extracted models use non-tail-recursive list functions: large observations (65536-entry tables, register files of
+# lg_k 21) overflow OCaml's default 8 MiB stack.  Raise the soft stack limit to the hard limit for every child process.
+try:
+    import resource
+    _soft, _hard = resource.getrlimit(resource.RLIMIT_STACK)
+    resource.setrlimit(resource.RLIMIT_STACK, (_hard, _hard))
+except Exception:
+    pass
+
 VERIF = os.path.abspath(os.path.join(os.path.dirname(os.path.abspath(__file__)), ".."))
 REPO = os.environ.get("VERIF_REPO", "/repo")
 COQ = os.path.join(VERIF, "coq")
